@@ -260,7 +260,16 @@ var c20Numbers = []uint64{0, 1, 7, 8, 0x7f, 0x80, 0xff, 0x100, 0xffff, 0x10000, 
 
 func c20MutateBytes(rt *rapid.T, b []byte, other []byte, offsets []int) ([]byte, string) {
 	b = append([]byte{}, b...)
-	kind := rapid.SampledFrom([]string{"bitflip", "setbyte", "delete", "duplicate", "insert", "truncate", "splice", "number8", "lengthfield", "repeat"}).Draw(rt, "bmut")
+	kinds := []string{"bitflip", "setbyte", "delete", "duplicate", "insert", "truncate", "splice", "number8", "lengthfield", "repeat"}
+	inner := c20InnerLengths(b)
+	if len(inner) > 0 {
+		kinds = append(kinds, "innerlength", "innerlength")
+	}
+	ids := c20IDs(b)
+	if len(ids) >= 2 {
+		kinds = append(kinds, "idswap", "idswap")
+	}
+	kind := rapid.SampledFrom(kinds).Draw(rt, "bmut")
 	if len(b) == 0 {
 		return []byte{byte(rapid.IntRange(0, 255).Draw(rt, "byte"))}, "insert"
 	}
@@ -310,6 +319,25 @@ func c20MutateBytes(rt *rapid.T, b []byte, other []byte, offsets []int) ([]byte,
 		} else if pos+8 <= len(b) {
 			binary.LittleEndian.PutUint64(b[pos:], c20Numbers[rapid.IntRange(0, len(c20Numbers)-1).Draw(rt, "num")])
 		}
+	case "idswap":
+		// make one node reference another (or itself, or an ancestor, or a node of another kind): the
+		// stream stays well-formed, only the graph it describes changes
+		ti := rapid.IntRange(0, len(ids)-1).Draw(rt, "id_to")
+		fi := rapid.IntRange(0, len(ids)-1).Draw(rt, "id_from")
+		if ti > 0 && rapid.Bool().Draw(rt, "id_near") {
+			// an identifier stored shortly before: most likely the node's own (a record starts with it)
+			back := rapid.IntRange(1, 6).Draw(rt, "id_back")
+			if back > ti {
+				back = ti
+			}
+			fi = ti - back
+		}
+		from, to := ids[fi], ids[ti]
+		copy(b[to:to+36], append([]byte{}, b[from:from+36]...))
+	case "innerlength":
+		// a length stored inside a length-prefixed blob (the value bytes of a string constant)
+		o := inner[rapid.IntRange(0, len(inner)-1).Draw(rt, "inner_off")]
+		binary.LittleEndian.PutUint64(b[o:], c20Numbers[rapid.IntRange(0, len(c20Numbers)-1).Draw(rt, "num")])
 	case "repeat":
 		n := rapid.IntRange(1, 32).Draw(rt, "blen")
 		if pos+n > len(b) {
@@ -323,6 +351,41 @@ func c20MutateBytes(rt *rapid.T, b []byte, other []byte, offsets []int) ([]byte,
 		b = b[:c20MaxInputLen]
 	}
 	return b, kind
+}
+
+// c20IDs finds the offsets of the node identifiers (36-character UUID texts) in a binary image.
+func c20IDs(b []byte) []int {
+	var out []int
+	isHex := func(c byte) bool { return (c >= '0' && c <= '9') || (c >= 'a' && c <= 'f') }
+	for o := 0; o+36 <= len(b) && len(out) < 4096; o++ {
+		ok := true
+		for i := 0; i < 36 && ok; i++ {
+			c := b[o+i]
+			if i == 8 || i == 13 || i == 18 || i == 23 {
+				ok = c == '-'
+			} else {
+				ok = isHex(c)
+			}
+		}
+		if ok {
+			out = append(out, o)
+			o += 35
+		}
+	}
+	return out
+}
+
+// c20InnerLengths finds nested length fields: an 8-byte little-endian n followed by an 8-byte n-8
+// (a length-prefixed blob that starts with the length of its own payload).
+func c20InnerLengths(b []byte) []int {
+	var out []int
+	for o := 0; o+16 <= len(b) && len(out) < 4096; o++ {
+		n := binary.LittleEndian.Uint64(b[o:])
+		if n >= 8 && n < 1<<20 && binary.LittleEndian.Uint64(b[o+8:]) == n-8 && o+8+int(n) <= len(b) {
+			out = append(out, o+8)
+		}
+	}
+	return out
 }
 
 func c20GRBStream(rt *rapid.T, paths []gen.PathInfo) ([]byte, []int) {
@@ -435,6 +498,28 @@ func c20GenInput0(rt *rapid.T, paths []gen.PathInfo, stCfg gen.StateCfg) c20Inpu
 		in.Data, in.Kind = c20Structure(rt, target), "structure"
 		return in
 	}
+	if mode == "structure" {
+		// graph surgery on a binary image: the stream stays well-formed, 1-3 node references are redirected
+		// (to the node itself or a node stored shortly before - cycles -, or to any other node)
+		img, _ := c20GRBStream(rt, paths)
+		b := append([]byte{}, img...)
+		if ids := c20IDs(b); len(ids) >= 2 {
+			for i, n := 0, rapid.IntRange(1, 3).Draw(rt, "nswaps"); i < n; i++ {
+				ti := rapid.IntRange(1, len(ids)-1).Draw(rt, "swap_to")
+				fi := rapid.IntRange(0, len(ids)-1).Draw(rt, "swap_from")
+				if rapid.IntRange(0, 3).Draw(rt, "swap_near") > 0 {
+					back := rapid.IntRange(1, 6).Draw(rt, "swap_back")
+					if back > ti {
+						back = ti
+					}
+					fi = ti - back
+				}
+				copy(b[ids[ti]:ids[ti]+36], append([]byte{}, b[ids[fi]:ids[fi]+36]...))
+			}
+		}
+		in.Data, in.Kind = b, "structure"
+		return in
+	}
 	var valid, other []byte
 	var offsets []int
 	switch target {
@@ -493,7 +578,7 @@ func c20Describe(in c20Input) c20Replay {
 }
 
 func TestC20(t *testing.T) {
-	col := stats.New("C20", "four loaders - BuildRuleFromResource (GRL bytes), JSONResource.Load + build (JSON rule bytes), DataContext.AddJSON (JSON fact bytes), LoadKnowledgeBaseFromReader (binary stream) - are fed generated inputs: random bytes; valid inputs produced by the other checks' generators (grammar-rich GRL documents, JSON rules converted from typed trees, JSON fact documents, stored binary images of built knowledge bases); 1-3 structure-aware mutations of those (bit flips, boundary bytes, deletion, duplication, repetition, insertion, truncation, splicing, 8-byte boundary numbers, length-field edits at the binary format's field boundaries taken from the loader's own Read calls, token-level GRL mutations); and structural inputs (nesting, long flat chains, many rules, deep JSON). Every input is executed in a child process built from the current tree with an address-space limit of 3 GiB; the parent knows the culprit when the child dies or exceeds the hang guard. Oracle per input: no panic escapes the loader, the process survives, TotalAlloc grows by at most 64 MiB + 256 KiB per input byte (deterministic), wall time <= 20 s (three orders of magnitude above normal; hang guard only). Non-trivial: the loader got past its first validation step (returned success, or an error after structural parsing: GRL/JSON inputs that lex, binary streams with a valid version header). Distinct by input bytes.",
+	col := stats.New("C20", "four loaders - BuildRuleFromResource (GRL bytes), JSONResource.Load + build (JSON rule bytes), DataContext.AddJSON (JSON fact bytes), LoadKnowledgeBaseFromReader (binary stream) - are fed generated inputs: random bytes; valid inputs produced by the other checks' generators (grammar-rich GRL documents, JSON rules converted from typed trees, JSON fact documents, stored binary images of built knowledge bases); 1-3 structure-aware mutations of those (bit flips, boundary bytes, deletion, duplication, repetition, insertion, truncation, splicing, 8-byte boundary numbers, length-field edits at the binary format's field boundaries taken from the loader's own Read calls, edits of nested length fields (a length stored inside a length-prefixed blob), node-identifier swaps (a well-formed stream whose node references form cycles, dangle or name a node of another kind), token-level GRL mutations); and structural inputs (nesting, long flat chains, many rules, deep JSON). Every input is executed in a child process built from the current tree with an address-space limit of 3 GiB; the parent knows the culprit when the child dies or exceeds the hang guard. Oracle per input: no panic escapes the loader, the process survives, TotalAlloc grows by at most 64 MiB + 256 KiB per input byte (deterministic), wall time <= 20 s (three orders of magnitude above normal; hang guard only). Non-trivial: the loader got past its first validation step (returned success, or an error after structural parsing: GRL/JSON inputs that lex, binary streams with a valid version header). Distinct by input bytes.",
 		"inputs whose longest operator/selector/parenthesis chain in one statement is >= 64 belong to the open finding about cubic build cost; generated chains stay <= 32 and are counted when a mutation exceeds the signature",
 		"time is not used as a correctness signal below the 20 s hang guard")
 	defer col.Flush()
@@ -566,6 +651,16 @@ func c20KnownProbes(t *testing.T, col *stats.Collector) {
 		{Target: c20GRB, Kind: "seed:length_max", Data: []byte{0xff, 0xff, 0xff, 0xff, 0xff, 0xff, 0xff, 0xff}},
 		{Target: c20GRB, Kind: "seed:empty_stream", Data: []byte{}},
 		{Target: c20JSONFact, Kind: "seed:deep_array", Data: []byte(strings.Repeat("[", 20000) + strings.Repeat("]", 20000))},
+	}
+	// a stored knowledge base whose string constant claims a payload of 4 GiB / 1 TiB inside its value bytes
+	if img := storedImage(`rule A { when F.S == "hello" then F.I64 = 0; }`); img != nil {
+		if inner := c20InnerLengths(img); len(inner) > 0 {
+			for _, n := range []uint64{0x100000000, 1 << 40} {
+				m := append([]byte{}, img...)
+				binary.LittleEndian.PutUint64(m[inner[0]:], n)
+				seeds = append(seeds, c20Input{Target: c20GRB, Kind: fmt.Sprintf("seed:string_constant_inner_length_%d", n), Data: m})
+			}
+		}
 	}
 	res, err := c20RunBatch(seeds)
 	if err != nil {
